@@ -162,13 +162,19 @@ func (verifAddr) Network() string { return "tcp" }
 func (verifAddr) String() string  { return "127.0.0.1:4150" }
 
 type verifConn struct {
-	in     verifStream
-	out    verifSink
-	closed int
+	in      verifStream
+	out     verifSink
+	closed  int
+	onWrite func(p []byte)
 }
 
 func (c *verifConn) Read(p []byte) (int, error)         { return c.in.Read(p) }
-func (c *verifConn) Write(p []byte) (int, error)        { return c.out.Write(p) }
+func (c *verifConn) Write(p []byte) (int, error) {
+	if c.onWrite != nil {
+		c.onWrite(p)
+	}
+	return c.out.Write(p)
+}
 func (c *verifConn) Close() error                       { c.closed++; return nil }
 func (c *verifConn) LocalAddr() net.Addr                { return verifAddr{} }
 func (c *verifConn) RemoteAddr() net.Addr               { return verifAddr{} }
